@@ -8,10 +8,10 @@ Open Scope N_scope.
 (* the importer's fold                                                 *)
 (* ------------------------------------------------------------------ *)
 
-Definition istep (props : bool) (rs : res ist) (x : xcommit) : res ist :=
-  do s <- rs; import_one props s x.
+Definition istep (rs : res ist) (x : xcommit) : res ist :=
+  do s <- rs; import_one s x.
 
-Lemma fold_istep_fail props xs e : fold_left (istep props) xs (Fail e) = Fail e.
+Lemma fold_istep_fail xs e : fold_left istep xs (Fail e) = Fail e.
 Proof. induction xs as [|x xs IH]; simpl; [reflexivity|exact IH]. Qed.
 
 (* what one imported revision must look like, given the commit command it came from *)
@@ -25,11 +25,12 @@ Definition meta_rel (x : xcommit) (d : drev) : Prop :=
 Definition ref_parents (s : ist) (x : xcommit) : list nat :=
   match x_from x with
   | Some k => [k]
-  | None => match aget bytes_eqb (last_ids (i_rt s)) MASTER with Some l => [l] | None => [] end
+  | None => match (if x_reset x then None else aget bytes_eqb (last_ids (i_rt s)) MASTER) with
+            | Some l => [l] | None => [] end
   end ++ x_merges x.
 
 Lemma import_one_spec s x s' :
-  import_one false s x = Ok s' ->
+  import_one s x = Ok s' ->
   exists d, i_revs s' = i_revs s ++ [(x_mark x, d)] /\ meta_rel x d /\ d_parents d = ref_parents s x
             /\ i_tags s' = i_tags s.
 Proof.
@@ -42,14 +43,14 @@ Proof.
 Qed.
 
 Lemma fold_istep_spec xs : forall s0 s,
-  fold_left (istep false) xs (Ok s0) = Ok s ->
+  fold_left (istep) xs (Ok s0) = Ok s ->
   exists ds, i_revs s = i_revs s0 ++ ds /\ map fst ds = map x_mark xs /\ Forall2 meta_rel xs (map snd ds)
              /\ i_tags s = i_tags s0.
 Proof.
   induction xs as [|x xs IH]; cbn [fold_left]; intros s0 s H.
   - inversion H; subst. exists []. rewrite app_nil_r. repeat split; constructor.
-  - change (istep false (Ok s0) x) with (import_one false s0 x) in H.
-    destruct (import_one false s0 x) as [s1|e] eqn:E.
+  - change (istep (Ok s0) x) with (import_one s0 x) in H.
+    destruct (import_one s0 x) as [s1|e] eqn:E.
     + destruct (import_one_spec s0 x s1 E) as [d [Hr [Hm [_ Ht]]]].
       destruct (IH s1 s H) as [ds [Hr' [Hk [Hf Ht']]]].
       exists ((x_mark x, d) :: ds). rewrite Hr', Hr, <- app_assoc. simpl.
@@ -67,27 +68,15 @@ Proof. induction ts as [|t ts IH]; simpl; intros s; [reflexivity|]. rewrite IH. 
 (* same number of revisions, in mark order, each with the committer / authors / time / message of its
    commit command -- for every stream the importer accepts *)
 Theorem import_preserves_count_and_meta (xs : list xcommit) (tags : list (bytes * nat)) (s : ist) :
-  import_stream false xs tags = Ok s ->
+  import_stream xs tags = Ok s ->
   map fst (i_revs s) = map x_mark xs /\ Forall2 meta_rel xs (map snd (i_revs s)).
 Proof.
-  unfold import_stream. fold (istep false).
-  destruct (fold_left (istep false) xs (Ok (mkI [] (mkRT [] [] None) 1000 []))) as [s1|e] eqn:E; simpl; [|discriminate].
+  unfold import_stream. fold (istep).
+  destruct (fold_left (istep) xs (Ok (mkI [] (mkRT [] [] None) 1000 []))) as [s1|e] eqn:E; simpl; [|discriminate].
   intros H. inversion H; subst; clear H.
   rewrite fold_import_tag_revs.
   destruct (fold_istep_spec xs _ s1 E) as [ds [Hr [Hk [Hf _]]]]. simpl in Hr.
   rewrite Hr. split; assumption.
-Qed.
-
-Lemma fold_fail_gen {X} (f : res ist -> X -> res ist) (xs : list X) (e : string) :
-  (forall e x, f (Fail e) x = Fail e) -> fold_left f xs (Fail e) = Fail e.
-Proof. intros Hf. induction xs as [|x xs IH]; simpl; [reflexivity|]. rewrite Hf. exact IH. Qed.
-
-(* a rich stream of revisions that have properties is rejected at its first commit *)
-Theorem rich_properties_rejected (x : xcommit) (xs : list xcommit) (tags : list (bytes * nat)) :
-  import_stream true (x :: xs) tags = Fail "ValueError".
-Proof.
-  unfold import_stream. simpl.
-  rewrite fold_fail_gen; [reflexivity|]. intros e y. reflexivity.
 Qed.
 
 (* ------------------------------------------------------------------ *)
@@ -113,34 +102,28 @@ Proof.
   split; reflexivity.
 Qed.
 
-(* a commit with at least one parent: the imported parents are exactly the marks of the source parents *)
-Theorem commit_parents_preserved plain h order r sr s s' ms :
-  Forall2 (fun p k => mark_of order p = Some k) (s_parents sr) ms ->
-  ms <> [] ->
-  import_one false s (export_commit plain h order r sr) = Ok s' ->
-  exists d, i_revs s' = i_revs s ++ [(x_mark (export_commit plain h order r sr), d)] /\ d_parents d = ms.
+Lemma export_commit_reset plain h order r sr :
+  x_reset (export_commit plain h order r sr) = match s_parents sr with [] => true | _ => false end.
 Proof.
-  intros HF HN HI.
-  destruct (import_one_spec _ _ _ HI) as [d [Hr [_ [Hp _]]]].
-  exists d. split; [exact Hr|]. rewrite Hp. unfold ref_parents.
-  destruct (export_commit_from plain h order r sr) as [Hf Hm]. rewrite Hf, Hm.
-  unfold pmarks. rewrite (marks_flat_map order _ ms HF).
-  destruct ms as [|k ms']; [contradiction|]. reflexivity.
+  unfold export_commit.
+  match goal with |- context [let '(a, m) := ?c in _] => destruct c end.
+  reflexivity.
 Qed.
 
-(* a parentless commit is given the previously imported commit as parent (reset without `from` is
-   ignored by reset_handler): the second root of a history is re-parented *)
-Theorem root_commit_reparented plain h order r sr s s' l :
-  s_parents sr = [] ->
-  aget bytes_eqb (last_ids (i_rt s)) MASTER = Some l ->
-  import_one false s (export_commit plain h order r sr) = Ok s' ->
-  exists d, i_revs s' = i_revs s ++ [(x_mark (export_commit plain h order r sr), d)] /\ d_parents d = [l].
+(* every commit (roots included: the reset printed before a parentless commit clears the ref) is imported
+   with exactly the marks of its parents, left-hand parent first, merge parents in order *)
+Theorem commit_parents_preserved plain h order r sr s s' ms :
+  Forall2 (fun p k => mark_of order p = Some k) (s_parents sr) ms ->
+  import_one s (export_commit plain h order r sr) = Ok s' ->
+  exists d, i_revs s' = i_revs s ++ [(x_mark (export_commit plain h order r sr), d)] /\ d_parents d = ms.
 Proof.
-  intros HP HL HI.
+  intros HF HI.
   destruct (import_one_spec _ _ _ HI) as [d [Hr [_ [Hp _]]]].
   exists d. split; [exact Hr|]. rewrite Hp. unfold ref_parents.
   destruct (export_commit_from plain h order r sr) as [Hf Hm]. rewrite Hf, Hm.
-  unfold pmarks. rewrite HP. simpl. rewrite HL. reflexivity.
+  rewrite export_commit_reset.
+  unfold pmarks. rewrite (marks_flat_map order _ ms HF).
+  destruct HF as [|p k ps ms' Hpk HF']; reflexivity.
 Qed.
 
 (* ------------------------------------------------------------------ *)
@@ -174,9 +157,10 @@ Theorem timezone_seconds_lost : stream_tz (-90) <> (-90)%Z.
 Proof. vm_compute. discriminate. Qed.
 
 (* an identity survives when it has no "<" (it travels as the name, with an empty e-mail), or when it is
-   literally  name ++ " <" ++ email ++ ">"  for the (name, email) that parseaddr returns, email non-empty *)
+   literally what _format_name_email makes of the (name, email) that parseaddr returns, email non-empty:
+   name ++ " <" ++ email ++ ">", or "<" ++ email ++ ">" for an empty name (08f41a9) *)
 Definition ident_canonical (u : ident) (parsed : nm_em) : bool :=
-  if Bytes.memb LT u then nonempty (snd parsed) && bytes_eqb u (fst parsed ++ [32; 60] ++ snd parsed ++ [62])
+  if Bytes.memb LT u then nonempty (snd parsed) && bytes_eqb u (format_name_email parsed)
   else true.
 
 Lemma bytes_eqb_eq a b : bytes_eqb a b = true -> a = b.
@@ -188,16 +172,21 @@ Qed.
 Theorem ident_roundtrip (u : ident) (parsed : nm_em) :
   ident_canonical u parsed = true -> format_name_email (name_email u parsed) = u.
 Proof.
-  unfold ident_canonical, name_email, format_name_email.
-  destruct (Bytes.memb LT u); simpl; [|reflexivity].
-  intros H. apply andb_prop in H. destruct H as [H1 H2]. rewrite H1.
+  unfold ident_canonical, name_email.
+  destruct (Bytes.memb LT u); simpl; [|unfold format_name_email; reflexivity].
+  intros H. apply andb_prop in H. destruct H as [H1 H2].
   symmetry. apply bytes_eqb_eq. exact H2.
 Qed.
 
-(* "<joe@x.org>" (parseaddr gives ("", "joe@x.org")) comes back with a leading space *)
 Definition JOE : bytes := [106; 111; 101; 64; 120; 46; 111; 114; 103].
-Theorem ident_empty_name_changed :
-  format_name_email (name_email ([60] ++ JOE ++ [62]) ([], JOE)) <> [60] ++ JOE ++ [62].
+(* repaired: "<joe@x.org>" (parseaddr gives ("", "joe@x.org")) comes back unchanged *)
+Theorem ident_empty_name_roundtrip :
+  format_name_email (name_email ([60] ++ JOE ++ [62]) ([], JOE)) = [60] ++ JOE ++ [62].
+Proof. vm_compute. reflexivity. Qed.
+
+(* residue: "Joe <>" (parseaddr gives ("Joe", "")) comes back as "Joe" *)
+Theorem ident_empty_email_changed :
+  format_name_email (name_email [74; 111; 101; 32; 60; 62] ([74; 111; 101], [])) <> [74; 111; 101; 32; 60; 62].
 Proof. vm_compute. discriminate. Qed.
 
 (* ------------------------------------------------------------------ *)
@@ -230,54 +219,63 @@ Proof.
   unfold import_tag. cbn [fst snd]. rewrite prefixb_app. cbn [i_tags]. rewrite skipn_refs_tags. reflexivity.
 Qed.
 
-(* ".hid": not a valid ref; dropped without --rewrite-tag-names, and with it the rewritten ref leaves
-   refs/tags/ and is tracked as a branch head, which then becomes the imported branch's tip *)
+(* every tag reset the exporter prints is below refs/tags/ (bbc24e3: only the tag name is rewritten), so
+   the importer records it as a tag and never as a branch head *)
+Theorem exported_tags_are_tags plain rewrite notags order tags t :
+  In t (export_tags plain rewrite notags order tags) -> prefixb REFS_TAGS (fst t) = true.
+Proof.
+  unfold export_tags. destruct notags; [contradiction|].
+  intros H. apply in_flat_map in H. destruct H as [[nm [r|]] [_ H]]; cbn [fst snd] in H; [|contradiction].
+  destruct (mark_of order r) as [k|]; [|contradiction].
+  destruct (plain && negb (check_ref_format (REFS_TAGS ++ nm))).
+  - destruct rewrite; [|contradiction]. destruct H as [H|[]]. subst t. cbn [fst]. apply prefixb_app.
+  - destruct H as [H|[]]. subst t. cbn [fst]. apply prefixb_app.
+Qed.
+
+(* ".hid": not a valid ref; dropped without --rewrite-tag-names, rewritten to "_hid" with it *)
 Definition HID : bytes := [46; 104; 105; 100].
 Theorem invalid_tag_dropped order r :
   export_tags true false false order [(HID, Some r)] = [].
 Proof. unfold export_tags. simpl. destruct (mark_of order r); reflexivity. Qed.
 
-Theorem rewritten_tag_leaves_refs_tags :
-  prefixb REFS_TAGS (sanitize_ref (REFS_TAGS ++ HID)) = false.
-Proof. vm_compute. reflexivity. Qed.
+Theorem invalid_tag_rewritten order r k :
+  mark_of order r = Some k ->
+  export_tags true true false order [(HID, Some r)] = [(REFS_TAGS ++ [95; 104; 105; 100], k)].
+Proof. intros H. unfold export_tags. cbn [flat_map snd fst]. rewrite H. vm_compute. reflexivity. Qed.
 
 (* ------------------------------------------------------------------ *)
 (* history-level witnesses                                             *)
 (* ------------------------------------------------------------------ *)
 
 Definition JOEID : bytes := [74; 111; 101; 32; 60] ++ JOE ++ [62].     (* "Joe <joe@x.org>" *)
-Definition srev0 (ps : list nat) (v : inv) : srev := mkS ps v JOEID ([74; 111; 101], JOE) [] 4000 0 [109] [].
+Definition srev0 (ps : list nat) (v : inv) : srev := mkS ps v JOEID ([74; 111; 101], JOE) [] 4000 0 [109] [] [].
 
 (* imported revisions of a plain export of [h] with tip [tip]: (parents as marks, tree) *)
 Definition imported (h : list srev) (tip : nat) : res (list (list nat * list titem)) :=
-  match import_stream false (export_commits true h tip) [] with
+  match import_stream (export_commits true h tip) [] with
   | Ok s => Ok (map (fun md => (d_parents (snd md), tree_of (d_inv (snd md)))) (i_revs s))
   | Fail e => Fail e
   end.
 
-(* two roots merged: the second root gets the first as parent and inherits its file *)
+(* two roots merged (repaired by 139a868): both roots stay roots, the merge has both as parents *)
 Definition h_two_roots : list srev :=
   [srev0 [] [F 1 0 bA tA]; srev0 [] [F 2 0 bB tB]; srev0 [0%nat; 1%nat] [F 1 0 bA tA; F 2 0 bB tB]].
 
-Theorem two_roots_not_preserved :
-  exists l, imported h_two_roots 2 = Ok l /\
-            ~ (exists t1 t2 t3, l = [([], t1); ([], t2); ([1%nat; 2%nat], t3)] \/
-                                l = [([], t1); ([], t2); ([2%nat; 1%nat], t3)]).
-Proof.
-  eexists. split; [vm_compute; reflexivity|].
-  intros [t1 [t2 [t3 [H|H]]]]; discriminate H.
-Qed.
+Theorem two_roots_preserved :
+  imported h_two_roots 2 = Ok [([], tree_of [F 1 0 bA tA]); ([], tree_of [F 2 0 bB tB]);
+                               ([1%nat; 2%nat], tree_of [F 1 0 bA tA; F 2 0 bB tB])].
+Proof. vm_compute. reflexivity. Qed.
 
-(* the tip of the imported branch after `--plain --rewrite-tag-names` with tag ".hid" on the first of
-   two revisions: mark 1, not mark 2 *)
+(* the tip of the imported branch after `--plain --rewrite-tag-names` with tag ".hid" on the first of two
+   revisions (repaired by bbc24e3): the real tip, mark 2, and the tag "_hid" on mark 1 *)
 Definition h_two : list srev := [srev0 [] [F 1 0 bA tA]; srev0 [0%nat] [F 1 0 bA tB]].
-Theorem rewritten_tag_moves_tip :
-  match import_stream false (export_commits true h_two 1)
+Theorem rewritten_tag_keeps_tip :
+  match import_stream (export_commits true h_two 1)
                       (export_tags true true false (export_order h_two 1) [(HID, Some 0%nat)]) with
-  | Ok s => final_tip s = Some 1%nat
+  | Ok s => final_tip s = Some 2%nat /\ i_tags s = [([95; 104; 105; 100], 1%nat)]
   | Fail _ => False
   end.
-Proof. vm_compute. reflexivity. Qed.
+Proof. vm_compute. split; reflexivity. Qed.
 
 (* the same history without the tag: tip = mark 2, both revisions, parents preserved *)
 Theorem two_revisions_roundtrip :
@@ -290,7 +288,7 @@ Proof. vm_compute. reflexivity. Qed.
 
 (* the modified child of the renamed directory of [wit_dirrename]: its new content is emitted at e/a *)
 Example emit_example :
-  In (CM (pjoin bE bA) MFile tX) (snd (filecmds true (fst wit_dirrename) (snd wit_dirrename) [])).
+  In (CM (pjoin bE bA) MFile tX) (snd (filecmds true (fst wit_dirrename) (snd wit_dirrename) [] [])).
 Proof.
   change (pjoin bE bA) with (opath (snd wit_dirrename) (e_id (F 2 1 bA tX))).
   change MFile with (mode_of (F 2 1 bA tX)).
@@ -304,7 +302,7 @@ Proof.
 Qed.
 
 Example parents_example :
-  exists s', import_one false (mkI [(1%nat, mkD [] [] None 0 0 [] [])] (mkRT [] [] None) 1000 [])
+  exists s', import_one (mkI [(1%nat, mkD [] [] None 0 0 [] [])] (mkRT [] [] None) 1000 [])
                         (export_commit true h_two [0%nat; 1%nat] 1 (srev0 [0%nat] [F 1 0 bA tB])) = Ok s'.
 Proof. eexists. vm_compute. reflexivity. Qed.
 
